@@ -136,6 +136,7 @@ YmAddOK(r, a, b) == IF (b > 0 /\ a > YmMax - b) \/ (b < 0 /\ a < (-YmMax) - b) T
 NegI(k) == 0 - k
 TsOfOd(x) == x
 
+RECURSIVE OpOK(_, _, _)
 OpOK(op, a, r) ==
   CASE
   (* ---- Date ---- *)
@@ -290,6 +291,9 @@ OpOK(op, a, r) ==
                               IF InDateRange(n) THEN IsOk(r, <<n, SodOf(a[1][4], a[1][5], a[1][6]), 0>>) ELSE IsErr(r)
   [] op = "OD.from_time_at" -> LET n == ClockDayRes(a[1]) IN
                               IF InDateRange(n) THEN IsOk(r, <<n, a[2][1], 0>>) ELSE IsErr(r)
+  (* ---- vector form: one first argument, many second arguments ---- *)
+  [] op = "VEC" -> r[1] = 0 /\ Len(r[2]) = Len(a[3]) /\
+                   \A j \in 1..Len(a[3]) : OpOK(a[1], <<a[2], a[3][j]>>, r[2][j])
   (* ---- C17: the same operation through the three types (relational) ---- *)
   [] op \in {"AG.dt", "AG.ym", "AG.ldm"} ->
         r[1] = 0 /\ LET p == r[2] IN AgreeLift(p[1], p[2], op = "AG.ldm") /\ AgreeFloor(p[2], p[3])
@@ -335,6 +339,14 @@ InRangeOf(ty, v) ==
     [] ty = "DT" -> DtInRange(v)
     [] OTHER     -> TRUE
 \* C02 as a predicate on a logged event
+ValueInRange1(op, r) ==
+  LET ty == ResType(op) IN
+  IF ty = "-" THEN TRUE
+  ELSE (r[1] = 0 => InRangeOf(ty, r[2]))
+ValueInRangeX(op, a, r) ==
+  IF op = "VEC" THEN r[1] = 0 => \A j \in 1..Len(r[2]) : ValueInRange1(a[1], r[2][j])
+  ELSE ValueInRange1(op, r)
+NoPanicX(op, r) == r[1] # 2 /\ (op = "VEC" => \A j \in 1..Len(r[2]) : r[2][j][1] # 2)
 ValueInRange(op, r) ==
   LET ty == ResType(op) IN
   IF ty = "-" THEN TRUE
